@@ -513,7 +513,7 @@ Definition rtnext_case2_rtns : list cstmt :=
 Definition rtnext_case2_ext : list cstmt :=
   [SCall "call:__uint32_identity#0" "__uint32_identity" [CLoad (mkty false 32) (CVar (mkty false 64) "iterator->_next_bitmap")];
    SSet "set:iterator->_bitmap_shifter#0" "iterator->_bitmap_shifter" (site NEXT "set:iterator->_bitmap_shifter#0");
-   SOther "increment of iterator->_next_bitmap";
+   SSet "upd:iterator->_next_bitmap#0" "iterator->_next_bitmap" (site NEXT "upd:iterator->_next_bitmap#0");
    SIf "if#11" (site NEXT "if#11")
      [SSet "set:iterator->_arg_index#0" "iterator->_arg_index" (site NEXT "set:iterator->_arg_index#0")]
      [SSet "upd:iterator->_arg_index#0" "iterator->_arg_index" (site NEXT "upd:iterator->_arg_index#0")];
@@ -585,6 +585,12 @@ Proof.
   repeat split; try reflexivity; site_unfold NEXT; rewrite ?Hnb, ?Hrs, ?Hi; wrap_ids; try reflexivity.
   cbv beta iota. rewrite (ld32 m h buf) by (assumption || lia). cbv beta iota. wrap_ids. reflexivity.
 Qed.
+
+(* iterator->_next_bitmap++ (a uint32_t pointer): the address moves by 4 - the model's r_nextbm it + 4 *)
+Lemma site_rtnext_next_bitmap_step rho nb :
+  rho "iterator->_next_bitmap" = nb -> 0 <= nb < 2 ^ 62 ->
+  ceval rho m (site NEXT "upd:iterator->_next_bitmap#0") = Some (nb + 4).
+Proof. intros <- Hn; nums. site_unfold NEXT; wrap_ids; reflexivity. Qed.
 
 (* default: hit = 1;   next_entry: iterator->_bitmap_shifter >>= 1; iterator->_arg_index++;
    model: Hit (r_idx it) a, and shift_next: r_idx := r_idx it + 1, r_shift := Z.shiftr (r_shift it) 1 *)
@@ -708,6 +714,11 @@ Proof.
   rewrite (ld32 m h buf) by (assumption || lia). cbv beta iota. wrap_ids. reflexivity.
 Qed.
 
+Lemma site_rtinit_next_bitmap_step rho nb :
+  rho "iterator->_next_bitmap" = nb -> 0 <= nb < 2 ^ 62 ->
+  ceval rho m (site INIT "upd:iterator->_next_bitmap#0") = Some (nb + 4).
+Proof. intros <- Hn; nums. site_unfold INIT; wrap_ids; reflexivity. Qed.
+
 (* iterator->_rtheader = radiotap_header;  iterator->_arg = (uint8_t * ) radiotap_header + sizeof( *radiotap_header);
    iterator->_vns = vns;  iterator->current_namespace = &radiotap_ns;  (and, at the end)  iterator->this_arg = iterator->_arg;
    model: r_arg := Some 8 (sizeof_ieee80211_radiotap_header), r_ns := true *)
@@ -786,13 +797,13 @@ Lemma rtinit_body_keys :
   ["if#0"; "if#1"; "call:__uint16_identity#0"; "if#2"; "set:iterator->_rtheader#0"; "call:__uint16_identity#1";
    "set:iterator->_max_length#0"; "set:iterator->_arg_index#0"; "call:__uint32_identity#0"; "set:iterator->_bitmap_shifter#0";
    "set:iterator->_arg#0"; "set:iterator->_reset_on_ext#0"; "set:iterator->_next_bitmap#0";
-   "OTHER: increment of iterator->_next_bitmap"; "set:iterator->_vns#0"; "set:iterator->current_namespace#0";
+   "upd:iterator->_next_bitmap#0"; "set:iterator->_vns#0"; "set:iterator->current_namespace#0";
    "set:iterator->is_radiotap_ns#0"; "if#3"; "set:iterator->this_arg#0"; "ret#5"].
 Proof. reflexivity. Qed.
 
 Lemma rtinit_if3_branch_keys :
   match nth 17 body_ieee80211_radiotap_iterator_init SBreak with SIf _ _ a b => (map stmt_key a, b) | _ => ([], []) end =
-  (["if#4"; "OTHER: call in loop condition"; "upd:iterator->_arg#0"; "if#5"; "upd:iterator->_arg#1"], []).
+  (["if#4"; "call:__uint32_identity#1"; "loop#0"; "upd:iterator->_arg#1"], []).
 Proof. reflexivity. Qed.
 
 End Init.
@@ -826,11 +837,11 @@ Theorem rtnext_sites_covered :
                                                                                              (* site_rtnext_vendor_case *)
   ; "set:iterator->_reset_on_ext#1"; "set:iterator->current_namespace#1"; "set:iterator->is_radiotap_ns#1"
                                                                                              (* site_rtnext_rtns_case *)
-  ; "set:iterator->_bitmap_shifter#0"; "if#11"; "set:iterator->_arg_index#0"; "upd:iterator->_arg_index#0"
-  ; "set:iterator->_reset_on_ext#2"                                                          (* site_rtnext_ext_case *)
+  ; "set:iterator->_bitmap_shifter#0"; "upd:iterator->_next_bitmap#0"; "if#11"; "set:iterator->_arg_index#0"; "upd:iterator->_arg_index#0"
+  ; "set:iterator->_reset_on_ext#2"                                                          (* site_rtnext_ext_case, site_rtnext_next_bitmap_step *)
   ; "set:hit#1"; "upd:iterator->_bitmap_shifter#0"; "upd:iterator->_arg_index#1"             (* site_rtnext_next_entry *)
   ; "if#12"; "ret#4" ]                                                                       (* site_rtnext_if12; rtnext_after_switch1 *)
-  /\ length NEXT = 60%nat.
+  /\ length NEXT = 61%nat.
 Proof. split; reflexivity. Qed.
 
 Theorem rtinit_sites_covered :
@@ -844,7 +855,7 @@ Theorem rtinit_sites_covered :
   ; "set:iterator->_bitmap_shifter#0"                                                        (* site_rtinit_present *)
   ; "set:iterator->_arg#0"                                                                   (* site_rtinit_pointers *)
   ; "set:iterator->_reset_on_ext#0"                                                          (* site_rtinit_constants *)
-  ; "set:iterator->_next_bitmap#0"                                                           (* site_rtinit_present *)
+  ; "set:iterator->_next_bitmap#0"; "upd:iterator->_next_bitmap#0"                           (* site_rtinit_present, site_rtinit_next_bitmap_step *)
   ; "set:iterator->_vns#0"; "set:iterator->current_namespace#0"                              (* site_rtinit_pointers *)
   ; "set:iterator->is_radiotap_ns#0"                                                         (* site_rtinit_constants *)
   ; "if#3"                                                                                   (* site_rtinit_if3 *)
@@ -854,7 +865,7 @@ Theorem rtinit_sites_covered :
   ; "upd:iterator->_arg#1"                                                                   (* site_rtinit_loop *)
   ; "set:iterator->this_arg#0"                                                               (* site_rtinit_pointers *)
   ; "ret#5" ]                                                                                (* site_rtinit_constants *)
-  /\ length INIT = 26%nat.
+  /\ length INIT = 27%nat.
 Proof. split; reflexivity. Qed.
 
 (* NOT covered: 0 of the 60 + 26 named sites.  What is not covered are the statements of the bodies that have NO site: the SOther
@@ -873,8 +884,8 @@ Fixpoint others (s : cstmt) : list string :=
   end.
 
 Theorem rtiter_not_sites :
-  flat_map others body_ieee80211_radiotap_iterator_next = ["GotoStmt"; "GotoStmt"; "GotoStmt"; "GotoStmt"; "increment of iterator->_next_bitmap"; "label next_entry"] /\
-  flat_map others body_ieee80211_radiotap_iterator_init = ["increment of iterator->_next_bitmap"; "call in loop condition"].
+  flat_map others body_ieee80211_radiotap_iterator_next = ["GotoStmt"; "GotoStmt"; "GotoStmt"; "GotoStmt"; "label next_entry"] /\
+  flat_map others body_ieee80211_radiotap_iterator_init = [].
 Proof. split; reflexivity. Qed.
 
 Print Assumptions holds_mem_at.
@@ -915,6 +926,8 @@ Print Assumptions site_rtnext_vendor_case.
 Print Assumptions site_rtnext_rtns_case.
 Print Assumptions site_rtnext_ext_case.
 Print Assumptions site_rtnext_next_entry.
+Print Assumptions site_rtnext_next_bitmap_step.
+Print Assumptions site_rtinit_next_bitmap_step.
 Print Assumptions site_rtnext_index_overflow_refuted.
 Print Assumptions site_rtnext_if12.
 Print Assumptions site_rtinit_constants.
